@@ -292,7 +292,11 @@ func RunDispatch(t *testing.T, sc *DScenario) (recs []interface{}, failure strin
 			callErr := false
 			switch stp.A {
 			case "send":
-				callErr = s.Send(fixgen.NewMarketDataRequest().SetMDReqID("r")) != nil
+				m := fixgen.NewMarketDataRequest().SetMDReqID("r")
+				if nrec%2 == 1 { // every other one is a message received elsewhere and passed on (populated by parsing, old number in its header)
+					m = ParsedRequest("r")
+				}
+				callErr = s.Send(m) != nil
 			case "recv":
 				var a *Action
 				switch stp.Ty {
